@@ -1,37 +1,67 @@
 // Unit `cdc`: clock-domain decision kernel (C16).
 //
 // Everything above this file in the generated crate is cut from /repo:
-//   crate::symbol       SymbolId, ClockDomain, ClockDomain::{domain_id, compatible, merge}   (symbol.rs)
-//   crate::unsafe_kind  enum Unsafe                                                          (unsafe.rs)
-//   crate::checker      check_clock_domain                                                   (conv/checker/clock_domain.rs)
-// This file supplies (a) the stand-ins `check_clock_domain` needs to compile with its body text unchanged,
-// (b) an independent model of "clock domain" written from the property statement, (c) the harnesses.
+//   crate::parser_types PathId, StrId, TokenId (resource_table.rs), TextId (text_table.rs), TokenSource + its PartialEq<PathId>,
+//                       Token (veryl_token.rs), TokenRange + TokenRange::include (token_range.rs)
+//   crate::symbol       SymbolId, ClockDomain, ClockDomain::{domain_id, compatible, merge}, Affiliation   (symbol.rs)
+//   crate::unsafe_kind  enum Unsafe                                                                       (unsafe.rs)
+//   crate::range_table  RangeTable<T> + insert / begin / end / get / contains                             (range_table.rs)
+//   crate::checker      check_clock_domain (conv/checker/clock_domain.rs), check_assign_clock_domain (conv/utils.rs)
+// This file supplies (a) the stand-ins the two check functions need to compile with their body text unchanged,
+// (b) an independent model of "clock domain" and of "position inside a range" written from the property statement, (c) the harnesses.
 
 // ---------------------------------------------------------------------------------------------------------
-// (a) harness stand-ins: record calls only. Only the fields / methods the body of check_clock_domain touches.
+// (a) harness stand-ins: record calls only. Only the fields / methods the extracted bodies touch.
 // ---------------------------------------------------------------------------------------------------------
 pub mod standin {
-    use crate::symbol::ClockDomain;
+    use crate::parser_types::{StrId, Token, TokenId, TokenRange, TokenSource};
+    use crate::symbol::{Affiliation, ClockDomain};
     use crate::unsafe_kind::Unsafe;
-    use std::sync::atomic::{AtomicUsize, Ordering};
+    use std::sync::atomic::{AtomicBool, AtomicUsize, Ordering};
 
-    /// stand-in for veryl_parser::veryl_token::Token: an identity plus the answer the unsafe table would give
-    /// for this very token (an independent symbolic bool per token, so asking about the wrong token is visible).
-    #[derive(Clone, Copy, Debug, PartialEq, Eq)]
-    pub struct Token {
-        pub id: u32,
-        pub vp_in_unsafe_cdc: bool,
+    /// a real `Token` with a concrete identity; line/column irrelevant for the decision harnesses
+    pub fn mk_token(id: usize) -> Token {
+        Token { id: TokenId(id), text: StrId(0), line: 1, column: 1, length: 1, pos: 0, source: TokenSource::Builtin }
     }
-    /// stand-in for veryl_parser::token_range::TokenRange
-    #[derive(Clone, Copy, Debug, PartialEq, Eq)]
-    pub struct TokenRange {
-        pub beg: Token,
-        pub end: Token,
+    pub fn mk_range(id: usize) -> TokenRange {
+        TokenRange { beg: mk_token(id), end: mk_token(id + 1) }
     }
-    /// stand-in for crate::ir::Comptime: the two fields check_clock_domain reads
-    #[derive(Clone, Copy, Debug)]
+
+    /// stand-in for crate::ir::Type: the two predicates and the text check_assign_clock_domain asks for
+    #[derive(Clone, Copy, Debug, PartialEq, Eq)]
+    pub struct Type {
+        pub vp_clock: bool,
+        pub vp_reset: bool,
+    }
+    #[derive(Clone, Copy, Debug, PartialEq, Eq)]
+    pub struct TypeText(pub Type);
+    impl Type {
+        pub fn is_clock(&self) -> bool {
+            self.vp_clock
+        }
+        pub fn is_reset(&self) -> bool {
+            self.vp_reset
+        }
+        pub fn to_string(&self) -> TypeText {
+            TypeText(*self)
+        }
+    }
+    /// stand-in for crate::ir::Comptime: the three fields the check functions read / write
+    #[derive(Clone, Copy, Debug, PartialEq, Eq)]
     pub struct Comptime {
+        pub r#type: Type,
         pub clock_domain: ClockDomain,
+        pub token: TokenRange,
+    }
+    #[derive(Clone, Copy, Debug, PartialEq, Eq)]
+    pub struct VarPath(pub u32);
+    #[derive(Clone, Copy, Debug, PartialEq, Eq)]
+    pub struct VarId(pub u32);
+    /// stand-in for crate::ir::AssignDestination: comptime, path, token
+    #[derive(Clone, Copy, Debug, PartialEq, Eq)]
+    pub struct AssignDestination {
+        pub path: VarPath,
+        pub comptime: Comptime,
         pub token: TokenRange,
     }
     /// stand-in for the message text `ClockDomain::to_string()` (real: Display through a symbol-table lookup)
@@ -42,10 +72,11 @@ pub mod standin {
             DomText(*self)
         }
     }
-    /// stand-in for crate::analyzer_error::AnalyzerError: remembers what the constructor was given
+    /// stand-in for crate::analyzer_error::AnalyzerError: remembers what the constructors were given
     #[derive(Clone, Copy, Debug, PartialEq, Eq)]
     pub enum AnalyzerError {
         MismatchClockDomain { clock_domain: DomText, other_domain: DomText, token: TokenRange, other_token: TokenRange },
+        InvalidClockAssignment { kind: TypeText, token: TokenRange },
     }
     pub static MISMATCH_CTOR_CALLS: AtomicUsize = AtomicUsize::new(0);
     impl AnalyzerError {
@@ -53,27 +84,105 @@ pub mod standin {
             MISMATCH_CTOR_CALLS.fetch_add(1, Ordering::Relaxed);
             AnalyzerError::MismatchClockDomain { clock_domain: *clock_domain, other_domain: *other_domain, token: *token, other_token: *other_token }
         }
+        pub fn invalid_clock_assignment(kind: &TypeText, token: &TokenRange) -> Self {
+            AnalyzerError::InvalidClockAssignment { kind: *kind, token: *token }
+        }
     }
-    /// stand-in for crate::conv::Context: counts insert_error calls and keeps the last error
+    /// stand-in for Context::var_paths (real: HashMap<VarPath, (VarId, Comptime)>): one entry, lookups counted
+    #[derive(Debug, Default)]
+    pub struct VarPaths {
+        pub slot: Option<(VarPath, (VarId, Comptime))>,
+        pub get_mut_calls: usize,
+    }
+    impl VarPaths {
+        pub fn get_mut(&mut self, k: &VarPath) -> Option<&mut (VarId, Comptime)> {
+            self.get_mut_calls += 1;
+            match &mut self.slot {
+                Some((p, v)) if p == k => Some(v),
+                _ => None,
+            }
+        }
+    }
+    /// stand-in for Context::condition_domains (real: Vec<Comptime>): at most two entries, no heap; `clone()` + by-value iteration is all the body uses
+    #[derive(Clone, Copy, Debug, Default)]
+    pub struct CondList {
+        pub items: [Option<Comptime>; 2],
+        pub len: usize,
+    }
+    impl CondList {
+        pub fn push(&mut self, c: Comptime) {
+            self.items[self.len] = Some(c);
+            self.len += 1;
+        }
+    }
+    pub struct CondIter {
+        list: CondList,
+        next: usize,
+    }
+    impl Iterator for CondIter {
+        type Item = Comptime;
+        fn next(&mut self) -> Option<Comptime> {
+            if self.next < self.list.len {
+                self.next += 1;
+                self.list.items[self.next - 1]
+            } else {
+                None
+            }
+        }
+    }
+    impl IntoIterator for CondList {
+        type Item = Comptime;
+        type IntoIter = CondIter;
+        fn into_iter(self) -> CondIter {
+            CondIter { list: self, next: 0 }
+        }
+    }
+    /// stand-in for crate::conv::Context: error log (in order), innermost affiliation, current clock, condition domains, var_paths
     #[derive(Debug, Default)]
     pub struct Context {
         pub n_errors: usize,
         pub last: Option<AnalyzerError>,
+        pub log: [Option<AnalyzerError>; 6],
+        pub vp_affiliation: Option<Affiliation>,
+        pub current_clock: Option<Comptime>,
+        pub condition_domains: CondList,
+        pub var_paths: VarPaths,
     }
     impl Context {
         pub fn insert_error(&mut self, error: AnalyzerError) {
+            if self.n_errors < 6 {
+                self.log[self.n_errors] = Some(error);
+            }
             self.n_errors += 1;
             self.last = Some(error);
         }
+        /// real: `self.affiliation.last() == Some(&value)`
+        pub fn is_affiliated(&self, value: Affiliation) -> bool {
+            self.vp_affiliation == Some(value)
+        }
     }
-    /// stand-in for crate::unsafe_table (thread-local RangeTable<Unsafe>): the answer is carried by the token asked about
+    /// stand-in for crate::unsafe_table (thread-local RangeTable<Unsafe>) in the decision harnesses: the answer for a token is an
+    /// independent symbolic bool per token identity (so asking about the wrong token is visible); calls and the last token asked are recorded.
+    /// The real lookup (RangeTable::get / TokenRange::include) is under contract separately below.
     pub mod unsafe_table {
-        use super::{Ordering, Token, Unsafe};
-        pub static CONTAINS_CALLS: super::AtomicUsize = super::AtomicUsize::new(0);
+        use super::{AtomicBool, AtomicUsize, Ordering, Token, Unsafe};
+        pub static CONTAINS_CALLS: AtomicUsize = AtomicUsize::new(0);
+        pub static ASKED_OTHER_TOKEN: AtomicUsize = AtomicUsize::new(0);
+        pub static ORACLE: [AtomicBool; 8] = [const { AtomicBool::new(false) }; 8];
+        pub fn set_oracle(u: [bool; 8]) {
+            let mut i = 0;
+            while i < 8 {
+                ORACLE[i].store(u[i], Ordering::Relaxed);
+                i += 1;
+            }
+        }
         pub fn contains(token: &Token, value: Unsafe) -> bool {
             CONTAINS_CALLS.fetch_add(1, Ordering::Relaxed);
+            if token.id.0 != 0 {
+                ASKED_OTHER_TOKEN.fetch_add(1, Ordering::Relaxed);
+            }
             match value {
-                Unsafe::Cdc => token.vp_in_unsafe_cdc,
+                Unsafe::Cdc => ORACLE[token.id.0 & 7].load(Ordering::Relaxed),
             }
         }
     }
@@ -84,8 +193,11 @@ pub mod standin {
 // exactly one clock domain; domains are the module's unnamed default domain `'_` or a named one; how a named
 // domain was attached (written by the user / inferred) is not part of the model.
 // "Data may move between a and b without error iff they are the same domain or at least one is domain-less."
+// A position lies inside an `unsafe (cdc) { .. }` block iff it is in the block's file and lies in the closed
+// interval [first token, last token] in lexicographic (line, column) order.
 // ---------------------------------------------------------------------------------------------------------
 pub mod spec {
+    use crate::parser_types::{PathId, TokenSource};
     use crate::symbol::{ClockDomain, SymbolId};
 
     #[derive(Clone, Copy, Debug, PartialEq, Eq)]
@@ -127,46 +239,74 @@ pub mod spec {
         kani::assume(tag < 4);
         mk(tag, id)
     }
+
+    /// lexicographic (line, column) order
+    pub fn pos_le(l1: u32, c1: u32, l2: u32, c2: u32) -> bool {
+        l1 < l2 || (l1 == l2 && c1 <= c2)
+    }
+    /// the file a token source belongs to, if any
+    pub fn file_of(s: &TokenSource) -> Option<usize> {
+        match s {
+            TokenSource::File { path, .. } => Some(path.0),
+            TokenSource::Generated(p) => Some(p.0),
+            TokenSource::Builtin => None,
+            TokenSource::External => None,
+        }
+    }
+    pub fn in_file(s: &TokenSource, path: PathId) -> bool {
+        file_of(s) == Some(path.0)
+    }
 }
 
 // ---------------------------------------------------------------------------------------------------------
-// (c) harnesses (loop-free, symbolic usize ids => complete)
+// (c) harnesses (loop-free, symbolic usize ids / u32 positions => complete, except where labelled bounded)
 // ---------------------------------------------------------------------------------------------------------
 pub mod harness {
-    use crate::checker::check_clock_domain;
+    use crate::checker::{check_assign_clock_domain, check_clock_domain};
+    use crate::parser_types::{PathId, StrId, TextId, Token, TokenId, TokenRange, TokenSource};
+    use crate::range_table::RangeTable;
     use crate::spec::*;
-    use crate::standin::{AnalyzerError, Comptime, Context, DomText, Token, TokenRange};
-    use crate::symbol::{ClockDomain, SymbolId};
+    use crate::standin::unsafe_table::{set_oracle, ASKED_OTHER_TOKEN, CONTAINS_CALLS};
+    use crate::standin::{mk_range, mk_token, AnalyzerError, AssignDestination, Comptime, Context, DomText, Type, TypeText, VarId, VarPath, MISMATCH_CTOR_CALLS};
+    use crate::symbol::{Affiliation, ClockDomain, SymbolId};
+    use crate::unsafe_kind::Unsafe;
+    use std::sync::atomic::Ordering::Relaxed;
 
     fn idv(c: &ClockDomain) -> Option<usize> {
         c.domain_id().map(|s| s.0)
     }
+    const PLAIN: Type = Type { vp_clock: false, vp_reset: false };
+    fn comptime(d: ClockDomain, tok: usize) -> Comptime {
+        Comptime { r#type: PLAIN, clock_domain: d, token: mk_range(tok) }
+    }
+    fn mismatch(l: &Comptime, r: &Comptime) -> AnalyzerError {
+        AnalyzerError::MismatchClockDomain { clock_domain: DomText(l.clock_domain), other_domain: DomText(r.clock_domain), token: l.token, other_token: r.token }
+    }
 
-    /// symbolic call of the REAL check_clock_domain; three distinct tokens, each with its own unsafe(cdc) answer
+    /// symbolic call of the REAL check_clock_domain; the statement token has id 0, operand tokens ids 1..4, each id its own unsafe(cdc) answer
     struct Call {
         lhs: Comptime,
         rhs: Comptime,
-        tok: Token,
+        in_cdc_block: bool,
         ctx: Context,
         ctor_calls: usize,
         contains_calls: usize,
+        asked_other: usize,
     }
     fn run_check(a: ClockDomain, b: ClockDomain) -> Call {
-        let u: [bool; 5] = kani::any();
-        let tok = Token { id: 0, vp_in_unsafe_cdc: u[0] };
-        let lt = TokenRange { beg: Token { id: 1, vp_in_unsafe_cdc: u[1] }, end: Token { id: 2, vp_in_unsafe_cdc: u[2] } };
-        let rt = TokenRange { beg: Token { id: 3, vp_in_unsafe_cdc: u[3] }, end: Token { id: 4, vp_in_unsafe_cdc: u[4] } };
-        let lhs = Comptime { clock_domain: a, token: lt };
-        let rhs = Comptime { clock_domain: b, token: rt };
+        let u: [bool; 8] = kani::any();
+        set_oracle(u);
+        let tok = mk_token(0);
+        let lhs = comptime(a, 1);
+        let rhs = comptime(b, 3);
         let mut ctx = Context::default();
-        let c0 = crate::standin::MISMATCH_CTOR_CALLS.load(std::sync::atomic::Ordering::Relaxed);
-        let k0 = crate::standin::unsafe_table::CONTAINS_CALLS.load(std::sync::atomic::Ordering::Relaxed);
+        let (c0, k0, o0) = (MISMATCH_CTOR_CALLS.load(Relaxed), CONTAINS_CALLS.load(Relaxed), ASKED_OTHER_TOKEN.load(Relaxed));
         check_clock_domain(&mut ctx, &lhs, &rhs, &tok);
-        let c1 = crate::standin::MISMATCH_CTOR_CALLS.load(std::sync::atomic::Ordering::Relaxed);
-        let k1 = crate::standin::unsafe_table::CONTAINS_CALLS.load(std::sync::atomic::Ordering::Relaxed);
-        Call { lhs, rhs, tok, ctx, ctor_calls: c1 - c0, contains_calls: k1 - k0 }
+        let (c1, k1, o1) = (MISMATCH_CTOR_CALLS.load(Relaxed), CONTAINS_CALLS.load(Relaxed), ASKED_OTHER_TOKEN.load(Relaxed));
+        Call { lhs, rhs, in_cdc_block: u[0], ctx, ctor_calls: c1 - c0, contains_calls: k1 - k0, asked_other: o1 - o0 }
     }
 
+    // ---- ClockDomain -------------------------------------------------------------------------------------
     /// compatible(a,b) <=> same domain or one side domain-less; also in the DESIGN.md wording
     #[vp_proof]
     pub fn compatible_iff_same_domain_or_domainless() {
@@ -227,12 +367,12 @@ pub mod harness {
         let i: usize = kani::any();
         let c = any_cd();
         let (e, f) = (ClockDomain::Explicit(SymbolId(i)), ClockDomain::Inferred(SymbolId(i)));
-        let unsafe_cdc: bool = kani::any();
-        let tok = Token { id: 0, vp_in_unsafe_cdc: unsafe_cdc };
-        let tr = TokenRange { beg: Token { id: 1, vp_in_unsafe_cdc: kani::any() }, end: Token { id: 2, vp_in_unsafe_cdc: kani::any() } };
+        let u: [bool; 8] = kani::any();
+        set_oracle(u);
+        let tok = mk_token(0);
         let n = |l: ClockDomain, r: ClockDomain| {
             let mut ctx = Context::default();
-            check_clock_domain(&mut ctx, &Comptime { clock_domain: l, token: tr }, &Comptime { clock_domain: r, token: tr }, &tok);
+            check_clock_domain(&mut ctx, &comptime(l, 1), &comptime(r, 3), &tok);
             ctx.n_errors
         };
         assert!(n(e, c) == n(f, c));
@@ -270,6 +410,8 @@ pub mod harness {
             assert!(!m.compatible(&c), "a crossing became invisible after merge");
         }
     }
+
+    // ---- check_clock_domain --------------------------------------------------------------------------------
     /// check_clock_domain records exactly one mismatch error <=> the domains differ and the statement's token is not
     /// inside unsafe(cdc); none otherwise. The error names lhs/rhs in that order. The unsafe table is asked once,
     /// about the statement token (not about an operand token).
@@ -278,14 +420,13 @@ pub mod harness {
         let (a, b) = (any_cd(), any_cd());
         let r = run_check(a, b);
         let crossing = !may_move(model(&a), model(&b));
-        let want = crossing && !r.tok.vp_in_unsafe_cdc;
+        let want = crossing && !r.in_cdc_block;
         assert!(r.ctx.n_errors == if want { 1 } else { 0 }, "error count differs from: crossing && !in_unsafe_cdc");
         assert!(r.ctor_calls == r.ctx.n_errors);
-        assert!(r.contains_calls == 1);
-        assert!((!a.compatible(&b) && !r.tok.vp_in_unsafe_cdc) == want);
+        assert!(r.contains_calls == 1 && r.asked_other == 0, "the cdc block table is not asked exactly once about the statement token");
+        assert!((!a.compatible(&b) && !r.in_cdc_block) == want);
         if want {
-            let e = AnalyzerError::MismatchClockDomain { clock_domain: DomText(a), other_domain: DomText(b), token: r.lhs.token, other_token: r.rhs.token };
-            assert!(r.ctx.last == Some(e), "the recorded error does not describe lhs/rhs");
+            assert!(r.ctx.last == Some(mismatch(&r.lhs, &r.rhs)), "the recorded error does not describe lhs/rhs");
         } else {
             assert!(r.ctx.last.is_none());
         }
@@ -296,7 +437,7 @@ pub mod harness {
         let (a, b) = (any_cd(), any_cd());
         kani::assume(model(&a) != Dom::Less && model(&b) != Dom::Less && model(&a) != model(&b));
         let r = run_check(a, b);
-        kani::assume(!r.tok.vp_in_unsafe_cdc);
+        kani::assume(!r.in_cdc_block);
         assert!(r.ctx.n_errors == 1);
     }
     /// clause 2: same domain (or a domain-less side), or inside unsafe(cdc) => no clock-domain error
@@ -304,22 +445,308 @@ pub mod harness {
     pub fn check_accepts_same_domain_and_guarded_crossings() {
         let (a, b) = (any_cd(), any_cd());
         let r = run_check(a, b);
-        kani::assume(model(&a) == model(&b) || model(&a) == Dom::Less || model(&b) == Dom::Less || r.tok.vp_in_unsafe_cdc);
+        kani::assume(model(&a) == model(&b) || model(&a) == Dom::Less || model(&b) == Dom::Less || r.in_cdc_block);
         assert!(r.ctx.n_errors == 0);
     }
-    /// canary: the error case of the check is reachable (must FAIL)
+
+    // ---- check_assign_clock_domain ---------------------------------------------------------------------------
+    /// one symbolic call of the REAL check_assign_clock_domain with `nc` (concrete, 0..=2) enclosing statement conditions
+    struct Assign {
+        d0: ClockDomain,
+        dst0: AssignDestination,
+        dst: AssignDestination,
+        rhs: Comptime,
+        ff: bool,
+        clock: Option<Comptime>,
+        conds: [Comptime; 2],
+        slot0: Option<(VarPath, (VarId, Comptime))>,
+        in_cdc_block: bool,
+        ctx: Context,
+        contains_calls: usize,
+        asked_other: usize,
+    }
+    fn run_assign(d: ClockDomain, nc: usize) -> Assign {
+        let u: [bool; 8] = kani::any();
+        set_oracle(u);
+        let ty = Type { vp_clock: kani::any(), vp_reset: kani::any() };
+        let dst0 = AssignDestination { path: VarPath(7), comptime: Comptime { r#type: ty, clock_domain: d, token: mk_range(5) }, token: mk_range(1) };
+        let rhs = comptime(any_cd(), 3);
+        let aff: u8 = kani::any();
+        let affiliation = match aff & 3 {
+            0 => Some(Affiliation::AlwaysFf),
+            1 => Some(Affiliation::AlwaysComb),
+            2 => Some(Affiliation::Module),
+            _ => None,
+        };
+        let ff = aff & 3 == 0;
+        let has_clock: bool = kani::any();
+        let clock_cd = any_cd();
+        let clock = if has_clock { Some(Comptime { r#type: Type { vp_clock: true, vp_reset: false }, clock_domain: clock_cd, token: mk_range(6) }) } else { None };
+        let conds = [comptime(any_cd(), 2), comptime(any_cd(), 4)];
+        let slot_kind: u8 = kani::any();
+        let slot_cd = any_cd();
+        let slot0 = match slot_kind & 3 {
+            0 => None,
+            1 => Some((VarPath(8), (VarId(1), comptime(slot_cd, 5)))),
+            _ => Some((VarPath(7), (VarId(2), comptime(slot_cd, 5)))),
+        };
+        let mut ctx = Context::default();
+        ctx.vp_affiliation = affiliation;
+        ctx.current_clock = clock;
+        ctx.var_paths.slot = slot0;
+        let mut k = 0;
+        while k < nc {
+            ctx.condition_domains.push(conds[k]);
+            k += 1;
+        }
+        let mut dst = dst0;
+        let stmt = TokenRange { beg: mk_token(0), end: mk_token(7) };
+        let (k0, o0) = (CONTAINS_CALLS.load(Relaxed), ASKED_OTHER_TOKEN.load(Relaxed));
+        check_assign_clock_domain(&mut ctx, &mut dst, &rhs, &stmt);
+        let (k1, o1) = (CONTAINS_CALLS.load(Relaxed), ASKED_OTHER_TOKEN.load(Relaxed));
+        Assign { d0: d, dst0, dst, rhs, ff, clock, conds, slot0, in_cdc_block: u[0], ctx, contains_calls: k1 - k0, asked_other: o1 - o0 }
+    }
+    /// the id the destination may be inferred to, per the source comments: in always_ff the clock's domain, otherwise the source's
+    fn inference_source(a: &Assign) -> Option<usize> {
+        if a.ff {
+            match &a.clock {
+                Some(c) => id_of(model(&c.clock_domain)),
+                None => None,
+            }
+        } else {
+            id_of(model(&a.rhs.clock_domain))
+        }
+    }
+    /// full contract for nc conditions: (i) the destination domain is rewritten only when it is Implicit and an id exists, then to
+    /// Inferred(id) in dst.comptime and in the var_paths entry of dst.path (no other entry, nothing else of dst); (ii) the error log is exactly:
+    /// [invalid clock assignment if clock/reset typed && always_ff], then one mismatch per crossing outside unsafe(cdc) of the (possibly
+    /// inferred) destination against rhs, then against the always_ff clock, then against each enclosing condition, in that order;
+    /// (iii) the cdc block table is asked once per check, always about the statement's first token.
+    fn assign_contract(nc: usize) {
+        let d = any_cd();
+        let a = run_assign(d, nc);
+        let infer = if model(&d) == Dom::Anon { inference_source(&a) } else { None };
+        let d1 = match infer {
+            Some(id) => ClockDomain::Inferred(SymbolId(id)),
+            None => d,
+        };
+        // (i)
+        assert!(a.dst.comptime.clock_domain == d1, "destination domain after the call");
+        assert!(a.dst.path == a.dst0.path && a.dst.token == a.dst0.token && a.dst.comptime.r#type == a.dst0.comptime.r#type && a.dst.comptime.token == a.dst0.comptime.token);
+        match (a.slot0, a.ctx.var_paths.slot) {
+            (None, None) => {}
+            (Some((p0, (v0, c0))), Some((p1, (v1, c1)))) => {
+                assert!(p0 == p1 && v0 == v1 && c0.r#type == c1.r#type && c0.token == c1.token);
+                let want = if p0 == a.dst0.path && infer.is_some() { d1 } else { c0.clock_domain };
+                assert!(c1.clock_domain == want, "var_paths entry after the call");
+            }
+            _ => assert!(false, "var_paths entry appeared or disappeared"),
+        }
+        assert!(a.ctx.var_paths.get_mut_calls == if infer.is_some() { 1 } else { 0 });
+        // (ii)
+        let lhs = Comptime { r#type: a.dst0.comptime.r#type, clock_domain: d1, token: a.dst0.token };
+        let mut want: [Option<AnalyzerError>; 6] = [None; 6];
+        let mut n = 0;
+        if (a.dst0.comptime.r#type.vp_clock || a.dst0.comptime.r#type.vp_reset) && a.ff {
+            want[n] = Some(AnalyzerError::InvalidClockAssignment { kind: TypeText(a.dst0.comptime.r#type), token: TokenRange { beg: mk_token(0), end: mk_token(7) } });
+            n += 1;
+        }
+        let crossing = |x: &Comptime| !may_move(model(&d1), model(&x.clock_domain)) && !a.in_cdc_block;
+        if crossing(&a.rhs) {
+            want[n] = Some(mismatch(&lhs, &a.rhs));
+            n += 1;
+        }
+        let mut checks = 1;
+        if a.ff {
+            if let Some(c) = &a.clock {
+                checks += 1;
+                if crossing(c) {
+                    want[n] = Some(mismatch(&lhs, c));
+                    n += 1;
+                }
+            }
+        }
+        let mut k = 0;
+        while k < nc {
+            checks += 1;
+            if crossing(&a.conds[k]) {
+                want[n] = Some(mismatch(&lhs, &a.conds[k]));
+                n += 1;
+            }
+            k += 1;
+        }
+        assert!(a.ctx.n_errors == n, "number of recorded errors");
+        assert!(a.ctx.log == want, "recorded errors (kind, operands, order)");
+        // (iii)
+        assert!(a.contains_calls == checks && a.asked_other == 0, "cdc block table consulted with another token or another number of times");
+    }
+    #[vp_proof]
+    pub fn assign_contract_no_condition() {
+        assign_contract(0);
+    }
+    #[vp_bounded]
+    pub fn assign_contract_one_condition() {
+        assign_contract(1);
+    }
+    #[vp_bounded]
+    pub fn assign_contract_two_conditions() {
+        assign_contract(2);
+    }
+    /// a destination whose domain is Explicit(i), Inferred(i) or None is never modified, nor is any var_paths entry (stated directly)
+    #[vp_proof]
+    pub fn assign_never_rewrites_an_annotated_destination() {
+        let d = any_cd();
+        kani::assume(model(&d) != Dom::Anon);
+        let a = run_assign(d, 0);
+        assert!(a.dst == a.dst0, "an Explicit/Inferred/None destination was modified");
+        assert!(a.ctx.var_paths.slot == a.slot0 && a.ctx.var_paths.get_mut_calls == 0, "var_paths was touched for an annotated destination");
+    }
+    /// an Explicit(i) or Inferred(i) destination fed from a different named domain outside unsafe(cdc): the mismatch (dst, rhs) is recorded
+    #[vp_proof]
+    pub fn assign_reports_crossing_into_annotated_destination() {
+        let (t, i): (u8, usize) = (kani::any(), kani::any());
+        kani::assume(t < 2);
+        let d = mk(t, i);
+        let a = run_assign(d, 0);
+        kani::assume(!a.in_cdc_block);
+        kani::assume(!(a.dst0.comptime.r#type.vp_clock || a.dst0.comptime.r#type.vp_reset));
+        if let Dom::Named(j) = model(&a.rhs.clock_domain) {
+            if j != i {
+                let lhs = Comptime { r#type: a.dst0.comptime.r#type, clock_domain: d, token: a.dst0.token };
+                assert!(a.ctx.n_errors >= 1 && a.ctx.log[0] == Some(mismatch(&lhs, &a.rhs)), "crossing into an annotated destination not reported");
+            }
+        }
+    }
+    /// Explicit(i) and Inferred(i) destinations behave alike: same number of errors for the same surroundings, same domain id afterwards
+    #[vp_proof]
+    pub fn assign_explicit_inferred_destinations_alike() {
+        let i: usize = kani::any();
+        let u: [bool; 8] = kani::any();
+        set_oracle(u);
+        let rhs = comptime(any_cd(), 3);
+        let ff: bool = kani::any();
+        let clock = if kani::any() { Some(comptime(any_cd(), 6)) } else { None };
+        let run = |d: ClockDomain| {
+            let mut ctx = Context::default();
+            ctx.vp_affiliation = if ff { Some(Affiliation::AlwaysFf) } else { Some(Affiliation::AlwaysComb) };
+            ctx.current_clock = clock;
+            let mut dst = AssignDestination { path: VarPath(7), comptime: comptime(d, 5), token: mk_range(1) };
+            check_assign_clock_domain(&mut ctx, &mut dst, &rhs, &TokenRange { beg: mk_token(0), end: mk_token(7) });
+            (ctx.n_errors, idv(&dst.comptime.clock_domain), dst.comptime.clock_domain)
+        };
+        let e = run(ClockDomain::Explicit(SymbolId(i)));
+        let f = run(ClockDomain::Inferred(SymbolId(i)));
+        assert!(e.0 == f.0, "Explicit and Inferred destinations produce different error counts");
+        assert!(e.1 == Some(i) && f.1 == Some(i), "an annotated destination changed its domain");
+        assert!(e.2 == ClockDomain::Explicit(SymbolId(i)) && f.2 == ClockDomain::Inferred(SymbolId(i)));
+    }
+
+    // ---- TokenRange::include / RangeTable ------------------------------------------------------------------------
+    fn any_source() -> TokenSource {
+        let (k, p, t): (u8, usize, usize) = (kani::any(), kani::any(), kani::any());
+        match k & 3 {
+            0 => TokenSource::File { path: PathId(p), text: TextId(t) },
+            1 => TokenSource::Generated(PathId(p)),
+            2 => TokenSource::Builtin,
+            _ => TokenSource::External,
+        }
+    }
+    fn any_token() -> Token {
+        Token { id: TokenId(kani::any()), text: StrId(kani::any()), line: kani::any(), column: kani::any(), length: kani::any(), pos: kani::any(), source: any_source() }
+    }
+    /// include(path, line, column) <=> the range is in that file and beg <= (line, column) <= end in lexicographic (line, column) order,
+    /// for every well-formed range (beg <= end); symbolic u32 lines and columns
+    #[vp_proof]
+    pub fn include_is_closed_interval_in_file() {
+        let r = TokenRange { beg: any_token(), end: any_token() };
+        let (path, line, column): (usize, u32, u32) = (kani::any(), kani::any(), kani::any());
+        kani::assume(pos_le(r.beg.line, r.beg.column, r.end.line, r.end.column));
+        let want = in_file(&r.beg.source, PathId(path)) && pos_le(r.beg.line, r.beg.column, line, column) && pos_le(line, column, r.end.line, r.end.column);
+        assert!(r.include(PathId(path), line, column) == want, "include differs from: same file && beg <= (line, column) <= end");
+    }
+    /// the case behind one-line `unsafe (cdc) { .. }` blocks, stated directly: a position to the right of a one-line range is outside
+    #[vp_proof]
+    pub fn include_one_line_range_ends_at_its_last_column() {
+        let r = TokenRange { beg: any_token(), end: any_token() };
+        let (path, column): (usize, u32) = (kani::any(), kani::any());
+        kani::assume(r.beg.line == r.end.line && r.beg.column <= r.end.column);
+        if column > r.end.column || column < r.beg.column {
+            assert!(!r.include(PathId(path), r.beg.line, column), "a one-line range covers positions outside its columns");
+        }
+    }
+    /// unsafe_table::contains is RangeTable::contains on a thread-local table. For a table built with the REAL insert (<= 2 closed ranges,
+    /// bounded) and <= 1 open block: contains(token, v) <=> token is a File token inside some inserted range of its file carrying v, or an
+    /// open block carries v
+    #[vp_bounded]
+    pub fn range_table_contains_iff_inside_some_range() {
+        let mut t: RangeTable<Unsafe> = RangeTable::default();
+        // file ids are drawn from {3, 5} (ranges) and {3, 5, 9} (queried token): hashing symbolic keys does not finish in CBMC
+        let sel: [bool; 3] = kani::any();
+        let (p1, p2): (usize, usize) = (3, if sel[0] { 3 } else { 5 });
+        let mk = |p: usize, l: u32, c: u32| Token { id: TokenId(0), text: StrId(0), line: l, column: c, length: 1, pos: 0, source: TokenSource::File { path: PathId(p), text: TextId(0) } };
+        let pos: [u32; 8] = kani::any();
+        let r1 = TokenRange { beg: mk(p1, pos[0], pos[1]), end: mk(p1, pos[2], pos[3]) };
+        let r2 = TokenRange { beg: mk(p2, pos[4], pos[5]), end: mk(p2, pos[6], pos[7]) };
+        kani::assume(pos_le(pos[0], pos[1], pos[2], pos[3]) && pos_le(pos[4], pos[5], pos[6], pos[7]));
+        let n: u8 = kani::any();
+        kani::assume(n <= 2);
+        if n >= 1 {
+            t.insert(r1, Unsafe::Cdc);
+        }
+        if n >= 2 {
+            t.insert(r2, Unsafe::Cdc);
+        }
+        let open: u8 = kani::any();
+        match open & 3 {
+            0 => {}
+            1 => t.begin(mk(p1, 0, 0), None),
+            _ => t.begin(mk(p1, 0, 0), Some(Unsafe::Cdc)),
+        }
+        let qp: usize = if sel[1] { 3 } else if sel[2] { 5 } else { 9 };
+        let qk: u8 = kani::any();
+        let qsrc = match qk & 3 {
+            0 => TokenSource::File { path: PathId(qp), text: TextId(1) },
+            1 => TokenSource::Generated(PathId(qp)),
+            2 => TokenSource::Builtin,
+            _ => TokenSource::External,
+        };
+        let q = Token { id: TokenId(9), text: StrId(0), line: kani::any(), column: kani::any(), length: 1, pos: 0, source: qsrc };
+        let inside = |r: &TokenRange| match q.source {
+            TokenSource::File { path, .. } => in_file(&r.beg.source, path) && pos_le(r.beg.line, r.beg.column, q.line, q.column) && pos_le(q.line, q.column, r.end.line, r.end.column),
+            _ => false,
+        };
+        let want = (n >= 1 && inside(&r1)) || (n >= 2 && inside(&r2)) || (open & 3) >= 2;
+        assert!(t.contains(&q, &Unsafe::Cdc) == want, "contains differs from: inside some recorded block (or a block is still open)");
+    }
+
+    // ---- canaries (must FAIL) ---------------------------------------------------------------------------------
+    /// the error case of the check is reachable
     #[vp_proof]
     pub fn canary_check_error_reachable() {
         let (a, b) = (any_cd(), any_cd());
         let r = run_check(a, b);
         assert!(r.ctx.n_errors == 0);
     }
-    /// canary: the assumption of merge_keeps_later_crossings_visible leaves a real crossing (must FAIL)
+    /// the assumption of merge_keeps_later_crossings_visible leaves a real crossing
     #[vp_proof]
     pub fn canary_merge_crossing_reachable() {
         let (a, b, c) = (any_cd(), any_cd(), any_cd());
         kani::assume(a.compatible(&b));
         kani::assume(a.domain_id().is_some() && b.domain_id().is_some());
         assert!(a.merge(&b).compatible(&c));
+    }
+    /// check_assign_clock_domain does infer and does report in some case
+    #[vp_proof]
+    pub fn canary_assign_infers_and_reports() {
+        let a = run_assign(ClockDomain::Implicit, 0);
+        assert!(a.dst.comptime.clock_domain == ClockDomain::Implicit || a.ctx.n_errors == 0);
+    }
+    /// well-formed ranges that contain the position exist
+    #[vp_proof]
+    pub fn canary_include_reachable() {
+        let r = TokenRange { beg: any_token(), end: any_token() };
+        let (path, line, column): (usize, u32, u32) = (kani::any(), kani::any(), kani::any());
+        kani::assume(pos_le(r.beg.line, r.beg.column, r.end.line, r.end.column));
+        assert!(!r.include(PathId(path), line, column));
     }
 }
